@@ -377,6 +377,11 @@ def _allow_pytree_inits(expand):
         """
         inits = tree.tree_map(np.asarray, inits)
         if not isinstance(inits[0], Array):
+            # Promote all leaves to their common dtype first: unravel() casts
+            # every leaf back to the dtype it has in the example, which would
+            # truncate the derivatives of, e.g., an integer-typed leaf.
+            flat, _ = tree.ravel_pytree(inits)
+            inits = tree.tree_map(lambda s: np.asarray(s, dtype=flat.dtype), inits)
             _, unravel = tree.ravel_pytree(inits[0])
             inits_flat = [tree.ravel_pytree(m)[0] for m in inits]
 
